@@ -10,8 +10,9 @@
 // interleavings) and the stress results are validated by Trace_Threads (SequentialEquivalence).
 //
 // Recording technique (x86-64 Linux, executable linked non-PIE with full RELRO):
-//   * the executable's writable segment (.data/.bss ... _end) and the writable segment of libpugixml are made
-//     PROT_NONE while an operation runs; every access faults; the SIGSEGV handler logs (read|write, address, rip),
+//   * the executable's writable segment (.data/.bss ... _end) is made PROT_NONE while an operation runs (every read
+//     and write faults), the writable segment of libpugixml PROT_READ (every write faults; its one page also holds the
+//     GOT that every PLT call reads); the SIGSEGV handler logs (read|write, address, rip),
 //     opens the page and sets EFLAGS.TF; the SIGTRAP after that single instruction closes the page again;
 //   * the tracer's own state lives in page-aligned objects that are excluded from the protection;
 //   * __cxa_guard_acquire/release/abort are interposed (defined here, forwarded with dlsym(RTLD_NEXT)): guard events
@@ -61,7 +62,7 @@ namespace tracer {
 constexpr uintptr_t kPage = 4096;
 struct Event { uint8_t kind; uint8_t rt; uint16_t pad; uint32_t count; uintptr_t addr; uintptr_t rip; };
 enum : uint8_t { kRead = 'r', kWrite = 'w', kGuardAcquire = 'a', kGuardTaken = 'A', kGuardRelease = 'g', kGuardAbort = 'x' };
-struct Range { uintptr_t lo, hi; };
+struct Range { uintptr_t lo, hi; int prot; };   // prot: protection while tracing (PROT_NONE: reads and writes fault, PROT_READ: writes only)
 // one `operator new` block of the recording arena
 struct Block { uintptr_t addr; uint32_t pages; uint32_t window; uintptr_t site; uint8_t live, traced, eligible, pad; uint32_t size; };
 
@@ -75,6 +76,7 @@ struct alignas(4096) State
 	int nOpen;
 	Range ranges[16];                 // protected address ranges (page aligned)
 	uintptr_t open[8];                // pages opened for the instruction being single-stepped
+	int openProt[8];
 	Event* events;                    // mmap'ed
 	size_t nEvents, capEvents;
 	size_t dropped;
@@ -113,6 +115,12 @@ static inline bool InRanges(uintptr_t a)
 	return false;
 }
 
+static inline int ProtOf(uintptr_t a)
+{
+	for (int i = 0; i < S.nRanges; ++i) if (a >= S.ranges[i].lo && a < S.ranges[i].hi) return S.ranges[i].prot;
+	return PROT_NONE;
+}
+
 static inline void Log(uint8_t kind, uintptr_t addr, uintptr_t rip)
 {
 	if (S.nEvents) {
@@ -139,6 +147,7 @@ static void OnSegv(int sig, siginfo_t* si, void* ctx)
 	Log(isWrite ? kWrite : kRead, a, static_cast<uintptr_t>(uc->uc_mcontext.gregs[REG_RIP]));
 	const uintptr_t page = a & ~(kPage - 1);
 	RawMprotect(page, kPage, PROT_READ | PROT_WRITE);
+	S.openProt[S.nOpen] = ProtOf(a);
 	S.open[S.nOpen++] = page;
 	uc->uc_mcontext.gregs[REG_EFL] |= 0x100;          // trap flag: SIGTRAP after this one instruction
 }
@@ -146,19 +155,19 @@ static void OnSegv(int sig, siginfo_t* si, void* ctx)
 static void OnTrap(int, siginfo_t*, void* ctx)
 {
 	ucontext_t* uc = static_cast<ucontext_t*>(ctx);
-	for (int i = 0; i < S.nOpen; ++i) RawMprotect(S.open[i], kPage, S.active ? PROT_NONE : (PROT_READ | PROT_WRITE));
+	for (int i = 0; i < S.nOpen; ++i) RawMprotect(S.open[i], kPage, S.active ? S.openProt[i] : (PROT_READ | PROT_WRITE));
 	S.nOpen = 0;
 	uc->uc_mcontext.gregs[REG_EFL] &= ~0x100L;
 }
 
-static void AddRange(uintptr_t lo, uintptr_t hi)
+static void AddRange(uintptr_t lo, uintptr_t hi, int prot)
 {
 	// leave out the pages of the tracer state
 	const uintptr_t slo = reinterpret_cast<uintptr_t>(&S), shi = slo + sizeof(State);
-	if (lo < slo && hi > slo) { AddRange(lo, slo); if (hi > shi) AddRange(shi, hi); return; }
-	if (lo >= slo && lo < shi) { if (hi > shi) AddRange(shi, hi); return; }
+	if (lo < slo && hi > slo) { AddRange(lo, slo, prot); if (hi > shi) AddRange(shi, hi, prot); return; }
+	if (lo >= slo && lo < shi) { if (hi > shi) AddRange(shi, hi, prot); return; }
 	if (lo >= hi) return;
-	if (S.nRanges < 16) { S.ranges[S.nRanges].lo = lo; S.ranges[S.nRanges].hi = hi; ++S.nRanges; }
+	if (S.nRanges < 16) { S.ranges[S.nRanges].lo = lo; S.ranges[S.nRanges].hi = hi; S.ranges[S.nRanges].prot = prot; ++S.nRanges; }
 }
 
 struct Segment { std::string module, path; uintptr_t lo, hi, base; };
@@ -200,7 +209,8 @@ static void Setup()
 		if (isExe) { if (endAddr > hi) hi = endAddr; if (hi > endAddr && endAddr > lo) hi = endAddr; }
 		const std::string mod = isExe ? "exe" : m.path.substr(m.path.rfind('/') + 1);
 		g_segments->push_back({mod, m.path, lo, hi, isExe ? 0 : bases[m.path]});
-		AddRange(lo, hi);
+		// libpugixml: its single writable page also holds the GOT, which every PLT call reads: traced for WRITES only
+		AddRange(lo, hi, isExe ? PROT_NONE : PROT_READ);
 	}
 	bool haveExe = false;
 	for (auto& s : *g_segments) if (s.module == "exe") haveExe = true;
@@ -230,7 +240,7 @@ static inline void Begin()
 	}
 	S.active = 1;
 	for (size_t i = 0; i < S.nBlocks; ++i) if (S.blocks[i].traced) RawMprotect(S.blocks[i].addr, S.blocks[i].pages * kPage, PROT_NONE);
-	for (int i = 0; i < S.nRanges; ++i) RawMprotect(S.ranges[i].lo, S.ranges[i].hi - S.ranges[i].lo, PROT_NONE);
+	for (int i = 0; i < S.nRanges; ++i) RawMprotect(S.ranges[i].lo, S.ranges[i].hi - S.ranges[i].lo, S.ranges[i].prot);
 }
 
 static inline void End()
@@ -440,6 +450,23 @@ struct Doc
 	}
 };
 
+// document of the UTF stream operations: text longer than the encoded-stream chunk in every string width
+struct UtfDoc
+{
+	int id = 0;
+	std::string u8;
+	std::u16string u16;
+	std::u32string u32;
+	Planet planet = Planet::Mercury;
+	Color color = Color::Red;
+	std::vector<std::string> texts;
+	template <class A> void Serialize(A& a)
+	{
+		a << KeyValue("id", id); a << KeyValue("u8", u8); a << KeyValue("u16", u16); a << KeyValue("u32", u32);
+		a << KeyValue("planet", planet); a << KeyValue("color", color); a << KeyValue("texts", texts);
+	}
+};
+
 // MsgPack only: the 32-bit length forms (bin32 / str32 / array32: more than 65535 bytes / elements)
 struct Large
 {
@@ -538,6 +565,14 @@ inline std::string Dump(const Doc& d)
 	for (auto& l : d.nested.inner.inner.items) o += Dump(l) + ",";
 	return o;
 }
+inline std::string Dump(const UtfDoc& d)
+{
+	std::string o = "id=" + std::to_string(d.id) + ";u8=" + HexOf(d.u8) + ";u16=" + Dump(d.u16) + ";u32=";
+	for (char32_t c : d.u32) o += std::to_string(static_cast<unsigned long>(c)) + ".";
+	o += ";planet=" + std::to_string(static_cast<int>(d.planet)) + ";color=" + std::to_string(static_cast<int>(d.color)) + ";texts=";
+	for (auto& t : d.texts) o += HexOf(t) + ",";
+	return o;
+}
 inline std::string Dump(const Large& l)
 {
 	std::string o = "blob=" + HexOf(std::string(reinterpret_cast<const char*>(l.blob.data()), l.blob.size())) + ";text=" + l.text + ";numbers=";
@@ -576,6 +611,8 @@ struct Inputs
 	std::string utf8Text;
 	Large large;                              // MsgPack 32-bit length forms
 	std::string msgpackLarge;
+	UtfDoc utfDoc;
+	std::vector<Row> utfRows;
 	SerializationOptions utfOptions[5];       // text streams in UTF-8 / UTF-16 LE / BE / UTF-32 LE / BE, with BOM
 };
 static Inputs g_in;
@@ -718,13 +755,13 @@ template <class TArchive> std::string OpUtfStreams()
 		std::string o;
 		for (int e = 0; e < 5; ++e) {
 			if constexpr (std::is_same_v<TArchive, CsvArchive>) {
-				const std::string bytes = SaveStream<TArchive>(g_in.rows, g_in.utfOptions[e]);
+				const std::string bytes = SaveStream<TArchive>(g_in.utfRows, g_in.utfOptions[e]);
 				std::vector<Row> r; LoadStream<TArchive>(r, bytes);
 				o += Digest64(bytes) + "/" + Digest64(Dump(r)) + "|";
 			}
 			else {
-				const std::string bytes = SaveStream<TArchive>(g_in.doc, g_in.utfOptions[e]);
-				Doc d; LoadStream<TArchive>(d, bytes);
+				const std::string bytes = SaveStream<TArchive>(g_in.utfDoc, g_in.utfOptions[e]);
+				UtfDoc d; LoadStream<TArchive>(d, bytes);
 				o += Digest64(bytes) + "/" + Digest64(Dump(d)) + "|";
 			}
 		}
@@ -791,6 +828,12 @@ static void BuildInputs()
 		r.wide = (i % 64 == 0) ? wide(static_cast<size_t>(300 + i)) : std::u16string(u"w");
 		g_in.rows.push_back(r);
 	}
+	for (int i = 0; i < 320; ++i) if (i < 10 || i % 40 == 0 || i % 64 == 0) g_in.utfRows.push_back(g_in.rows[static_cast<size_t>(i)]);
+	g_in.utfDoc.id = 42; g_in.utfDoc.u8 = d.u8 + d.s300 + d.s2100; g_in.utfDoc.u16 = d.u16 + d.w300;
+	for (char16_t c : wide(600)) g_in.utfDoc.u32.push_back(static_cast<char32_t>(c));
+	g_in.utfDoc.u32 += U"\U0001F600\U00010348";
+	g_in.utfDoc.planet = Planet::Neptune; g_in.utfDoc.color = Color::Green;
+	g_in.utfDoc.texts = {d.s17, d.s300, d.s4200, "\xE2\x82\xAC \xF0\x9F\x98\x80"};
 	for (int i = 0; i < 70000; ++i) { g_in.large.blob.push_back(static_cast<uint8_t>(i * 13)); g_in.large.numbers.push_back(static_cast<uint16_t>(i * 3)); }
 	g_in.large.text = text(70001, 9);
 	const Convert::Utf::UtfType encodings[5] = {Convert::Utf::UtfType::Utf8, Convert::Utf::UtfType::Utf16le, Convert::Utf::UtfType::Utf16be, Convert::Utf::UtfType::Utf32le, Convert::Utf::UtfType::Utf32be};
